@@ -351,6 +351,59 @@ func runC03(c C03Case, o *run.Obs) error {
 			}
 		}
 	}
+	if c.TwoStores && w.Cache != nil {
+		// the library's own in-memory stores: two instances are two different stores, whatever they report as their prefix
+		cache, _ := core.MakeCache(c.Cfg.Cache)
+		var roots []*mast.Root
+		stores := []mast.Persist{mast.NewInMemoryStore(), mast.NewInMemoryStore()}
+		for _, st := range stores {
+			var m *mast.Mast
+			if err := core.Safely("LoadMast", func() error {
+				var e error
+				m, e = w.NewRoot().LoadMast(core.Ctx, w.RemoteConfig(st, cache))
+				return e
+			}); err != nil {
+				break
+			}
+			t := &core.Tree{M: m, Model: core.Model{}}
+			ok := true
+			for _, ki := range cw.t.Model.Keys() {
+				if err := w.Insert(t, ki, cw.t.Model[ki]); err != nil {
+					ok = false
+					break
+				}
+			}
+			if !ok {
+				break
+			}
+			var r *mast.Root
+			var mkErr error
+			if err := core.Safely("MakeRoot", func() error { r, mkErr = m.MakeRoot(core.Ctx); return nil }); err != nil || mkErr != nil || r == nil {
+				break
+			}
+			roots = append(roots, r)
+		}
+		if len(roots) == 2 {
+			for i, st := range stores {
+				st := st
+				nodes, err := core.ReachableIn(c.Cfg, core.RootOf(*roots[i]).Link, func(name string) ([]byte, bool) {
+					b, err := st.Load(core.Ctx, name)
+					return b, err == nil
+				})
+				if err != nil {
+					return fmt.Errorf("[%s] two in-memory stores sharing one node cache, the same %d entries persisted into each: MakeRoot on store #%d returned success but the version is not complete in that store: %w", c.Cfg, len(cw.t.Model), i+1, err)
+				}
+				n := 0
+				for _, nd := range nodes {
+					n += len(nd.Keys)
+				}
+				if n != len(cw.t.Model) {
+					return fmt.Errorf("[%s] two in-memory stores sharing one node cache: store #%d reaches %d entries, the tree has %d", c.Cfg, i+1, n, len(cw.t.Model))
+				}
+			}
+			o.Label("two-library-in-memory-stores-one-cache")
+		}
+	}
 	o.NonTrivial = sawReorder || failedThenOK
 	labelCfg(o, c.Cfg)
 	if sawReorder {
